@@ -8,6 +8,8 @@ def run(res):
     common.prove(res, c02.KIT_L)
     c02.kit_s_part(res)
     diffcommon.run_diff_cases(res, {'C01'}, 'C01', {}, quick=(32, 80), thorough=(128, 300), cli=3 if res.tier == 'quick' else 10)
+    from . import localecommon
+    localecommon.difffile_part(res)          # nbdiff --out / nbpatch -o as real processes, also under a non-UTF-8 locale
     res.coverage['explanation'] = (
         'Proof part (shared with C02): %d obligations over the generic list differ/patcher that the notebook differ is built on, %d discharged. '
         'The notebook-specific differs (multilevel snakes, output/mime/attachment differs, string flattening) and the file interface are covered by a '
